@@ -52,6 +52,7 @@ var scanRules = map[string]scanRule{
 	"no-rescan":        func(a *scandfa.Analysis) []*report.RuleResult { return []*report.RuleResult{a.NoRescan()} },
 	"eof-final":        func(a *scandfa.Analysis) []*report.RuleResult { return []*report.RuleResult{a.EofFinal()} },
 	"num-classify":     func(a *scandfa.Analysis) []*report.RuleResult { return []*report.RuleResult{a.NumClassify()} },
+	"pred-spec":        func(a *scandfa.Analysis) []*report.RuleResult { return []*report.RuleResult{a.PredSpec()} },
 	"progress":         func(a *scandfa.Analysis) []*report.RuleResult { return []*report.RuleResult{a.Progress()} },
 }
 
@@ -127,7 +128,7 @@ func init() {
 	properties["SC"] = &Property{ // development aid: every scanner rule at once (not registered in the manifest)
 		Level: "other", Engine: "scandfa",
 		Run: func(c *Ctx) {
-			c.scanRun("token-rules", "newline-action", "newline-siblings", "newline-symmetry", "case-fold", "trivia-stay", "trivia-siblings", "idx-guard", "progress", "eof-final", "no-rescan")
+			c.scanRun("token-rules", "newline-action", "newline-siblings", "newline-symmetry", "case-fold", "trivia-stay", "trivia-siblings", "idx-guard", "progress", "eof-final", "no-rescan", "num-classify", "pred-spec")
 			c.ssaScan("pred-pure", "buf-readonly", "scanner-helpers")
 		},
 	}
